@@ -159,15 +159,16 @@ theorem dict_append {p : String} {idx vals idx' vals' : B} {index : List String}
     (hwf : WFB (.dictionary p idx vals index)) (lk lw : List LVal) (index' : List String)
     (hi : WFB idx') (hv : WFB vals') (hdi : dec idx' = dec idx ++ lk) (hdv : dec vals' = dec vals ++ lw)
     (hnd : (index ++ index').Nodup) (hlen : index'.length = lw.length)
-    (hkeys : ∀ k ∈ lk, ∀ j : Int, k = .int j → 0 ≤ j ∧ j.toNat < index.length + index'.length) :
+    (hkeys : ∀ k ∈ lk, ∀ j : Int, k = .int j → 0 ≤ j ∧ j.toNat < index.length + index'.length)
+    (hvals : DictVals vals' (index ++ index')) :
     WFB (.dictionary p idx' vals' (index ++ index')) ∧
     dec (.dictionary p idx' vals' (index ++ index')) =
       dec (.dictionary p idx vals index) ++ lk.map (dictRow (dec vals ++ lw)) := by
   simp only [WFB] at hwf
-  obtain ⟨_, _, _, hvl, hk⟩ := hwf
+  obtain ⟨_, _, _, hvl, hk, _⟩ := hwf
   refine ⟨?_, ?_⟩
   · simp only [WFB, hdi, hdv, List.length_append]
-    refine ⟨hi, hv, hnd, by omega, ?_⟩
+    refine ⟨hi, hv, hnd, by omega, ?_, hvals⟩
     intro k hk' j hj
     rcases List.mem_append.1 hk' with h | h
     · have := hk k h j hj; omega
@@ -177,6 +178,10 @@ theorem dict_append {p : String} {idx vals idx' vals' : B} {index : List String}
     apply List.map_congr_left
     intro k hk'
     exact dictRow_append lw (by intro j hj; have := hk k hk' j hj; omega)
+
+theorem DictVals.of_wf {p : String} {idx vals : B} {index : List String} (h : WFB (.dictionary p idx vals index)) :
+    DictVals vals index := by
+  simp only [WFB] at h; exact h.2.2.2.2.2
 
 /-! ### builder lists -/
 
